@@ -341,6 +341,8 @@ func (pe *PolicyEngine) insertNamespace(ns *corev1.Namespace) error {
 		return err
 	}
 	pe.namespacesMap[nsObj.Name] = nsObj
+	// clear the cache on namespaces changes (cached results may depend on namespace labels)
+	pe.cache.clear()
 	return nil
 }
 
@@ -432,6 +434,10 @@ func (pe *PolicyEngine) insertPod(pod *corev1.Pod) error {
 		return err
 	}
 	podStr := types.NamespacedName{Namespace: podObj.Namespace, Name: podObj.Name}
+	if _, exists := pe.podsMap[podStr.String()]; exists {
+		// an existing pod is updated (e.g. its ports): cached results of its owner are not valid anymore
+		pe.cache.clear()
+	}
 	pe.podsMap[podStr.String()] = podObj
 	// update cache with new pod associated to to its owner
 	pe.cache.addPod(podObj, podStr.String())
@@ -494,6 +500,8 @@ func (pe *PolicyEngine) insertAdminNetworkPolicy(anp *apisv1a.AdminNetworkPolicy
 	}
 	pe.adminNetpolsMap[anp.Name] = true
 	pe.sortedAdminNetpols = append(pe.sortedAdminNetpols, (*k8s.AdminNetworkPolicy)(anp))
+	// clear the cache on admin netpols changes
+	pe.cache.clear()
 	return nil
 }
 
@@ -511,11 +519,13 @@ func (pe *PolicyEngine) insertBaselineAdminNetworkPolicy(banp *apisv1a.BaselineA
 		return errors.New(netpolerrors.BANPNameAssertion)
 	}
 	pe.baselineAdminNetpol = (*k8s.BaselineAdminNetworkPolicy)(banp)
+	pe.cache.clear()
 	return nil
 }
 
 func (pe *PolicyEngine) deleteNamespace(ns *corev1.Namespace) error {
 	delete(pe.namespacesMap, ns.Name)
+	pe.cache.clear()
 	return nil
 }
 
@@ -585,6 +595,7 @@ func (pe *PolicyEngine) deleteAdminNetworkPolicy(anp *apisv1a.AdminNetworkPolicy
 			break
 		}
 	}
+	pe.cache.clear()
 	return nil
 }
 
@@ -595,6 +606,7 @@ func (pe *PolicyEngine) deleteBaselineAdminNetworkPolicy(banp *apisv1a.BaselineA
 	if pe.baselineAdminNetpol.Name == banp.Name { // if this is the banp used in pe delete it
 		// @TBD : should keep this if? no other banps are in the resources (illegal)
 		pe.baselineAdminNetpol = nil
+		pe.cache.clear()
 	}
 	return nil
 }
